@@ -69,7 +69,7 @@ pub enum StatementKind {
     Blob {
         name: Identifier,
         variables: Vec<Identifier>,
-        fields: HashMap<Identifier, Type>,
+        fields: BTreeMap<Identifier, Type>,
         external: bool,
     },
 
@@ -79,7 +79,7 @@ pub enum StatementKind {
     Enum {
         name: Identifier,
         variables: Vec<Identifier>,
-        variants: HashMap<Identifier, Type>,
+        variants: BTreeMap<Identifier, Type>,
     },
 
     /// Assigns to a variable (`a = <expression>`), optionally with an operator
@@ -513,7 +513,7 @@ pub fn statement<'t>(ctx: Context<'t>) -> ParseResult<'t, Statement> {
                 parse_sep_end_by(ctx, sep, end, item)?
             };
 
-            let mut variants = HashMap::new();
+            let mut variants = BTreeMap::new();
             for (variant, ty) in items {
                 if variants.contains_key(&variant) {
                     let file = ctx.file.clone();
@@ -564,7 +564,7 @@ pub fn statement<'t>(ctx: Context<'t>) -> ParseResult<'t, Statement> {
             let ctx = expect!(ctx, T::LeftBrace, "Expected '{{' to open blob");
             let (mut ctx, skip_newlines) = ctx.push_skip_newlines(true);
 
-            let mut fields = HashMap::new();
+            let mut fields = BTreeMap::new();
             // Parse fields: `a: int`
             loop {
                 match ctx.token().clone() {
